@@ -335,7 +335,7 @@ Proof.
   assert (Hi : inexc s = false) by (rewrite (i_excb _ _ H); exact He).
   pose proof (below_top_lt_all _ _ (i_sorted _ _ H) Hb) as Hlt.
   unfold mcount_entry. simpl inexc. rewrite Hi.
-  eapply Inv_push_hooked with (s := s) (e := new_ent (with_m s (upd (m s) sl r)) false k sl) (L' := rs s)
+  eapply Inv_push_hooked with (s := s) (e := new_ent (with_m s (upd (m s) sl r)) false k sl SNormal) (L' := rs s)
      (mm := upd (m s) sl r); eauto.
   - unfold new_ent, proj; simpl. rewrite upd_same. reflexivity.
   - exact (i_nolj _ _ H).
@@ -381,23 +381,23 @@ Proof.
     destruct (rehook_exception_spec s0 fa' (frames st) S L S1 S2 (i_sorted _ _ H) (i_valid _ _ H) (i_nolj _ _ H0))
       as [_ [_ [_ [R4 _]]]]; [intros e Hin; apply Hst; apply S3; exact Hin|intros y Hin; eapply shadow_loc_gt; eauto|exact Hm|].
     rewrite R4; [unfold s0; simpl; apply upd_same|]. intros y Hin. eapply shadow_loc_ne; eauto. }
-  eapply Inv_push_hooked with (s := s1) (e := new_ent s1 false k sl) (L' := rs s1) (mm := m s1); eauto.
+  eapply Inv_push_hooked with (s := s1) (e := new_ent s1 false k sl SNormal) (L' := rs s1) (mm := m s1); eauto.
   - unfold new_ent, proj; simpl. change (m (rehook_exception s0 fa') sl) with (m s1 sl). rewrite Hsl. reflexivity.
   - exact (i_nolj _ _ H1).
   - apply mem_top_plain; [exact H1|reflexivity].
 Qed.
 
 (* ================================================================ PLT calls (no exception in flight in libmcount's eyes) *)
-Lemma plt_entry_common : forall st s k sl r, Inv st s -> exc st = false ->
+Lemma plt_entry_common : forall st s k sl r kk, Inv st s -> exc st = false ->
   below_top (frames st) sl = true -> valid_ra r = true ->
   let s0 := with_m s (upd (m s) sl r) in
-  let e := new_ent s0 true k sl in
+  let e := new_ent s0 true k sl kk in
   let m1 := auto_restore false (e :: rs s) (upd (upd (m s) sl r) sl PRET) in
   forall e1 anc1 s', rs s' = e1 :: anc1 -> proj e1 = (sl, r, true) -> e_lj e1 = false ->
     map proj anc1 = map proj (rs s) -> nolj anc1 -> m s' = m1 -> inexc s' = false -> jbs s' = jbs s -> jpc s' = jpc s ->
     Inv (push st sl r [true]) s'.
 Proof.
-  intros st s k sl r H He Hb Hv s0 e m1 e1 anc1 s' Hrs Hp Hlj Hanc Hnl Hm Hi Hj1 Hj2.
+  intros st s k sl r kk H He Hb Hv s0 e m1 e1 anc1 s' Hrs Hp Hlj Hanc Hnl Hm Hi Hj1 Hj2.
   pose proof (below_top_lt_all _ _ (i_sorted _ _ H) Hb) as Hlt.
   eapply Inv_push_hooked with (s := s) (e := e1) (L' := anc1) (mm := upd (m s) sl r); eauto.
   - apply mem_top_upd_below; [exact Hlt|]. apply mem_top_plain; assumption.
@@ -409,16 +409,16 @@ Proof.
 Qed.
 
 (* what plthook_entry pushes, before the special handling *)
-Definition plt_triple (s : lst) (k sl r : N) (fl : bool) : ent * list ent * list rec :=
+Definition plt_triple (s : lst) (k sl r : N) (kk : skd) (fl : bool) : ent * list ent * list rec :=
   let s0 := with_m s (upd (m s) sl r) in
-  if fl then rtd (new_ent s0 true k sl) (rs s0) else (new_ent s0 true k sl, rs s0, []).
+  if fl then rtd (new_ent s0 true k sl kk) (rs s0) else (new_ent s0 true k sl kk, rs s0, []).
 
-Lemma plt_pushed : forall s k sl r (fl : bool), nolj (rs s) ->
-  let t := plt_triple s k sl r fl in
+Lemma plt_pushed : forall s k sl r kk (fl : bool), nolj (rs s) ->
+  let t := plt_triple s k sl r kk fl in
   proj (fst (fst t)) = (sl, r, true) /\ e_lj (fst (fst t)) = false /\
   map proj (snd (fst t)) = map proj (rs s) /\ nolj (snd (fst t)).
 Proof.
-  intros s k sl r fl Hnl. unfold plt_triple. set (s0 := with_m s (upd (m s) sl r)). set (e := new_ent s0 true k sl).
+  intros s k sl r kk fl Hnl. unfold plt_triple. set (s0 := with_m s (upd (m s) sl r)). set (e := new_ent s0 true k sl kk).
   assert (He : proj e = (sl, r, true)) by (unfold e, new_ent, proj, s0; simpl; rewrite upd_same; reflexivity).
   destruct fl.
   - pose proof (rtd_proj e (rs s0)) as R. pose proof (rtd_top_lj e (rs s0)) as Rl. pose proof (rtd_nolj e (rs s0) Hnl) as Rn.
@@ -433,14 +433,14 @@ Lemma step_Plt_plain : forall st s kd k sl r arg, Inv st s -> exc st = false ->
 Proof.
   intros st s kd k sl r arg H He Hb Hv Hk.
   assert (Hi : inexc s = false) by (rewrite (i_excb _ _ H); exact He).
-  pose proof (plt_pushed s k sl r (is_flush kd) (i_nolj _ _ H)) as P.
+  pose proof (plt_pushed s k sl r (kind_of kd arg) (is_flush kd) (i_nolj _ _ H)) as P.
   unfold plthook_entry. simpl inexc. rewrite Hi.
-  change (if is_flush kd then rtd (new_ent (with_m s (upd (m s) sl r)) true k sl) (rs (with_m s (upd (m s) sl r)))
-          else (new_ent (with_m s (upd (m s) sl r)) true k sl, rs (with_m s (upd (m s) sl r)), []))
-    with (plt_triple s k sl r (is_flush kd)).
-  destruct (plt_triple s k sl r (is_flush kd)) as [[e1 anc1] recs]. simpl in P.
+  change (if is_flush kd then rtd (new_ent (with_m s (upd (m s) sl r)) true k sl (kind_of kd arg)) (rs (with_m s (upd (m s) sl r)))
+          else (new_ent (with_m s (upd (m s) sl r)) true k sl (kind_of kd arg), rs (with_m s (upd (m s) sl r)), []))
+    with (plt_triple s k sl r (kind_of kd arg) (is_flush kd)).
+  destruct (plt_triple s k sl r (kind_of kd arg) (is_flush kd)) as [[e1 anc1] recs]. simpl in P.
   destruct P as [P1 [P2 [P3 P4]]].
-  destruct Hk as [Hk|Hk]; subst kd; eapply plt_entry_common with (k := k) (e1 := e1) (anc1 := anc1); eauto.
+  destruct Hk as [Hk|Hk]; subst kd; eapply plt_entry_common with (k := k) (kk := SNormal) (e1 := e1) (anc1 := anc1); eauto.
 Qed.
 
 (* ================================================================ tail calls *)
@@ -508,7 +508,7 @@ Proof.
   intros st s k f rest fa H He HF Hh.
   assert (Hi : inexc s = false) by (rewrite (i_excb _ _ H); exact He).
   unfold mcount_entry. rewrite Hi.
-  eapply Inv_tail with (s := s) (e := new_ent s false k (f_slot f)) (L' := rs s); eauto.
+  eapply Inv_tail with (s := s) (e := new_ent s false k (f_slot f) SNormal) (L' := rs s); eauto.
   - apply all_homogeneous_spec. exact Hh.
   - exact (i_nolj _ _ H).
   - intros a. simpl. rewrite Hi. reflexivity.
@@ -522,7 +522,7 @@ Proof.
   intros st s k f rest H He HF Hh.
   assert (Hi : inexc s = false) by (rewrite (i_excb _ _ H); exact He).
   unfold plthook_entry. simpl. rewrite Hi.
-  eapply Inv_tail with (s := s) (e := new_ent s true k (f_slot f)) (L' := rs s); eauto.
+  eapply Inv_tail with (s := s) (e := new_ent s true k (f_slot f) SNormal) (L' := rs s); eauto.
   - apply all_homogeneous_spec. exact Hh.
   - exact (i_nolj _ _ H).
 Qed.
@@ -640,14 +640,14 @@ Proof.
   intros st s k sl r arg H He Hfl Hb Hv s1 st1.
   assert (Hi : inexc s = false) by (rewrite (i_excb _ _ H); exact He).
   pose proof (below_top_lt_all _ _ (i_sorted _ _ H) Hb) as Hlt.
-  pose proof (plt_pushed s k sl r false (i_nolj _ _ H)) as P. unfold plt_triple in P. simpl in P.
+  pose proof (plt_pushed s k sl r (SSetjmp arg) false (i_nolj _ _ H)) as P. unfold plt_triple in P. simpl in P.
   destruct P as [P1 [P2 [P3 P4]]].
-  set (e := new_ent (with_m s (upd (m s) sl r)) true k sl) in *.
+  set (e := new_ent (with_m s (upd (m s) sl r)) true k sl (SSetjmp arg)) in *.
   set (m1 := auto_restore false (e :: rs s) (upd (upd (m s) sl r) sl PRET)).
   (* the state without the jmp_buf bookkeeping *)
   set (s0 := {| rs := e :: rs s; ridx := ridx s + 1; inexc := false; m := m1; jbs := jbs s; jpc := jpc s; out := out s ++ [] |}).
   assert (H0 : Inv st1 s0).
-  { unfold st1. eapply plt_entry_common with (k := k) (e1 := e) (anc1 := rs s) (s' := s0); eauto. }
+  { unfold st1. eapply plt_entry_common with (k := k) (kk := SSetjmp arg) (e1 := e) (anc1 := rs s) (s' := s0); eauto. }
   assert (Hpc : m1 sl = PRET).
   { pose proof (Inv_rs_plain _ _ H He) as Hplain.
     destruct (push_mem (frames st) (rs s) (upd (m s) sl r) sl PRET e Hplain (i_sorted _ _ H) (i_valid _ _ H) Hlt) as [M1 _]; auto.
@@ -657,7 +657,7 @@ Proof.
                    jpc := (arg, m s1 sl) :: jpc s1; out := out s1 |} =
                 {| rs := rs s0; ridx := ridx s0; inexc := inexc s0; m := m s0;
                    jbs := (arg, (ridx s + 1, e :: rs s)) :: jbs s0; jpc := (arg, m1 sl) :: jpc s0; out := out s0 |}).
-  { unfold s1, plthook_entry, s0. cbn [is_flush rs ridx inexc m jbs jpc out with_m]. rewrite Hi. reflexivity. }
+  { unfold s1, plthook_entry, s0. cbn [is_flush kind_of rs ridx inexc m jbs jpc out with_m]. rewrite Hi. reflexivity. }
   assert (Hste : {| frames := frames st1; next_id := next_id st1; jbt := (arg, (frames st, r)) :: jbt st;
                     flight := false; exc := false; extra := 0; stale := [] |} =
                  {| frames := frames st1; next_id := next_id st1; jbt := (arg, (frames st, r)) :: jbt st1;
@@ -685,14 +685,14 @@ Proof.
   assert (Hi : inexc s = false) by (rewrite (i_excb _ _ H); exact He).
   pose proof (below_top_lt_all _ _ (i_sorted _ _ H) Hb) as Hlt.
   destruct (i_jb _ _ H arg saved rsj Ha Hsuf) as [ri [snap [sl0 [J1 [J2 [J3 [J4 [J5 J6]]]]]]]].
-  pose proof (plt_pushed s k sl r true (i_nolj _ _ H)) as P. unfold plt_triple in P.
-  set (e := new_ent (with_m s (upd (m s) sl r)) true k sl) in *.
+  pose proof (plt_pushed s k sl r (SLongjmp arg) true (i_nolj _ _ H)) as P. unfold plt_triple in P.
+  set (e := new_ent (with_m s (upd (m s) sl r)) true k sl (SLongjmp arg)) in *.
   set (m1 := auto_restore false (e :: rs s) (upd (upd (m s) sl r) sl PRET)).
   destruct (rtd e (rs (with_m s (upd (m s) sl r)))) as [[e1 anc1] recs] eqn:Ertd. simpl in P.
   destruct P as [P1 [P2 [P3 P4]]].
   assert (Hs1 : s1 = {| rs := set_end (set_lj e1 true) arg :: anc1; ridx := ridx s + 1; inexc := false; m := m1;
                         jbs := jbs s; jpc := jpc s; out := out s ++ recs |}).
-  { unfold s1, plthook_entry. cbn [is_flush rs ridx inexc m jbs jpc out with_m]. fold e. rewrite Hi.
+  { unfold s1, plthook_entry. cbn [is_flush kind_of rs ridx inexc m jbs jpc out with_m]. fold e. rewrite Hi.
     change (rs (with_m s (upd (m s) sl r))) with (rs s) in Ertd. rewrite Ertd. reflexivity. }
   (* the memory after the entry hook: every live slot is "hooked or real" *)
   assert (Hm1 : mem_rest m1 (frames st)).
